@@ -240,7 +240,7 @@ impl Space {
             // shortest, longest and evenly spread in between
             let pick: Vec<Vec<bool>> = if seeds.len() <= keep { seeds } else { (0..keep).map(|k| seeds[k * (seeds.len() - 1) / (keep - 1)].clone()).collect() };
             for s in pick {
-                let depth = if thorough && s.len() <= 40 { 2 } else { 1 };
+                let depth = if thorough && s.len() <= 24 && zoo[e.module_index].quick { 2 } else { 1 };
                 blocks.push(Block::Faults { ty: t, seed: s, depth });
             }
         }
